@@ -109,3 +109,76 @@ def frac(tok, M=None):
     if tok == "-inf":
         return -M
     return F(tok)
+
+
+# ----------------------------------------------------------------------------- correspondence of the exact tests
+
+def perturb_q(rng, tok):
+    if tok in ("inf", "-inf"):
+        return "0"
+    v = F(tok)
+    return str(v + rng.choice([F(1), F(-1), F(1, 3), F(1, 10 ** 12), -v if v != 0 else F(2)]))
+
+
+def opttest_variants(rng, co, k=6):
+    """co: CaseOut of a solved case (OPTIMAL).  Returns list of (label, cstat, rstat, xs, ys)."""
+    nc, m, ns = co.dims()
+    a = co.acc
+    x = list(a["x"][1]) + list(a["slack"][1])
+    y = list(a["pi"][1])
+    cs, rs = co.basis if co.basis and co.basis[0] != "-" or ns == 0 else ("0" * ns, "1" * m)
+    if cs == "-":
+        cs = ""
+    if rs == "-":
+        rs = ""
+    out = [("true-cert", cs, rs, x, y)]
+    for _ in range(k):
+        kind = rng.choice(["x", "y", "cstat", "rstat", "garb", "free", "allbasic", "scale"])
+        cs2, rs2, x2, y2 = cs, rs, list(x), list(y)
+        if kind == "x" and nc:
+            j = rng.randrange(nc)
+            x2[j] = perturb_q(rng, x2[j])
+        elif kind == "y" and m:
+            i = rng.randrange(m)
+            y2[i] = perturb_q(rng, y2[i])
+        elif kind == "cstat" and ns:
+            j = rng.randrange(ns)
+            cs2 = cs[:j] + rng.choice("0123") + cs[j + 1:]
+        elif kind == "rstat" and m:
+            i = rng.randrange(m)
+            rs2 = rs[:i] + rng.choice("012") + rs[i + 1:]
+        elif kind == "garb" and (ns + m):
+            if ns and rng.random() < 0.5:
+                j = rng.randrange(ns)
+                cs2 = cs[:j] + rng.choice("4x9") + cs[j + 1:]
+            elif m:
+                i = rng.randrange(m)
+                rs2 = rs[:i] + rng.choice("3x4") + rs[i + 1:]
+        elif kind == "free" and ns:
+            j = rng.randrange(ns)
+            cs2 = cs[:j] + "3" + cs[j + 1:]
+        elif kind == "allbasic":
+            cs2, rs2 = "1" * ns, "1" * m
+        elif kind == "scale":
+            y2 = [str(F(t) * 2) for t in y2]
+        out.append((kind, cs2, rs2, x2, y2))
+    return out
+
+
+def opttest_script(cid, lp, cs, rs, xs, ys):
+    return "CASE %s\n%s\nOPTTEST %s %s %s %s\nDUMP\n" % (cid, lp_block(lp), cs or "-", rs or "-", " ".join(xs), " ".join(ys))
+
+
+def opttest_query(cid, co, cs, rs, xs, ys):
+    return "Q %s opttest\n%s\nBAS %s %s\nX %s\nY %s" % (cid, co.ilp_text(), cs or "-", rs or "-", " ".join(xs), " ".join(ys))
+
+
+def parse_opttest_out(toks):
+    """returns (verdict, cache dict or None)"""
+    v, acc = None, {}
+    for t in toks:
+        if t[0] == "OPTTEST":
+            v = int(t[1])
+        elif t[0] == "ACC":
+            acc[t[1]] = (int(t[2]), t[3:])
+    return v, acc
